@@ -185,4 +185,16 @@ end Impl
 def cfgCaps (W : World) (ec : EvalConfig) : List Cap :=
   (match ec.stdlib with | some l => l.reach | none => W.safe.reach) ++ ec.scopes.reach
 
+/-! ## Spec — what the property demands of an evaluation that was handed the capabilities `C` -/
+namespace Spec
+
+/-- the value returned reaches only capabilities in `C`, and only capabilities in `C` were exercised -/
+def Confined (C : List Cap) (r : Res) : Prop :=
+  (∀ v, r.1 = some v → v.reach ⊆ C) ∧ (∀ cap arg, Eff.did cap arg ∈ r.2 → cap ∈ C)
+
+/-- nothing that reads files, talks to the network or runs commands -/
+def dangerous : List Cap := [.readFile, .net, .exec]
+
+end Spec
+
 end Arrai.C18
